@@ -525,7 +525,11 @@ class SourceGenerator(NodeVisitor):
         self.write(node.arg)
 
     def visit_Constant(self, node):
-        self.write(repr(node.value))
+        text = repr(node.value)
+        if isinstance(node.value, (float, complex)):
+            # repr(float("inf")) is the name "inf"; 1e309 is the literal
+            text = text.replace("inf", "1e309")
+        self.write(text)
 
     def visit_Tuple(self, node):
         self.write("(")
